@@ -319,11 +319,13 @@ def c11_cases():
                 tier = "full"
             out.append(("c11_und_m%02d_x%d" % (mask, subset), "c11_undirected(%d, %d)" % (mask, subset), tier, ["reached end"],
                         "undirected topology mask %s, node subset #%d: triangles, clustering, generalized_degree, average_clustering, transitivity, square_clustering vs brute-force oracles" % (format(mask, "04b"), subset)))
-    for mask in (0b0000111, 0b0001011, 0b0111111, 0b1000111, 0b0010101, 0b0000001, 0b0011011, 0b0000000, 0b0001001, 0b0011111):
+    for mask in (0b0000111, 0b0001011, 0b0111111, 0b1000111, 0b0010101, 0b0000001, 0b0011011, 0b0000000, 0b0001001, 0b0011111, 0b0001111, 0b0101111):
         for subset in (0, 1, 2):
-            q = (mask, subset) in {(0b0000111, 0), (0b0001011, 1), (0b0011011, 2), (0b0001001, 0), (0b0011011, 0), (0b1000111, 0)}
+            # 0b0001111: the 3-cycle plus the reciprocal of one of its edges (a triangle through a reciprocal pair)
+            q = (mask, subset) in {(0b0000111, 0), (0b0001011, 1), (0b0011011, 2), (0b0001001, 0), (0b0011011, 0), (0b1000111, 0), (0b0001111, 0), (0b0111111, 0)}
             out.append(("c11_dir_m%03d_x%d" % (mask, subset), "c11_directed(%d, %d)" % (mask, subset), "quick" if q else "thorough", ["reached end"],
                         "directed topology mask %s, node subset #%d: clustering vs Fagiolo's formula; WrongMethod for the undirected-only functions" % (format(mask, "07b"), subset)))
+    out.append(("c11_und_selfloop_neighbour", "c11_undirected_small()", "full", ["reached end"], "two-node undirected graph: edge (2,0) and a self-loop on the neighbour 0: self-loops never count as triangles"))
     out.append(("c11_multi_refused_u", "c11_multi_refused(false)", "full", ["reached end"], "undirected multi-edge graph: every cluster function returns WrongMethod"))
     out.append(("c11_multi_refused_d", "c11_multi_refused(true)", "quick", ["reached end"], "directed multi-edge graph: clustering returns WrongMethod"))
     return out
